@@ -1,9 +1,9 @@
 (* Correspondence checker for C02 (and, through Run/Check_C03.v, C03): the model replays the
    operation list the harness executed against the real updates.Manager (pushes, recoveries,
    observed timer firings, startup) over the same server log and configuration, and must
-   reproduce the projected observation: per sequence the sorted multiset of delivered update
-   ids, the delivered plain ids, the finally persisted positions and the number of too-long
-   callbacks per sequence.  Numbers are primitive-integer literals offset by 2^40. *)
+   reproduce the projected observation: per sequence (and for plain updates) the ORDERED
+   string of its events: handler deliveries (ids), storage writes (values) and too-long
+   callbacks (skipped range).  Numbers are primitive-integer literals offset by 2^40. *)
 From Coq Require Import List ZArith Bool.
 From Coq Require Export Uint63.
 From TD Require Import Lib.RunLib Gen.GapCheck Model.SeqBox Model.UpdMgr.
@@ -45,18 +45,20 @@ Fixpoint parse_ops (n : nat) (ns : Z) (l : list Z) : list mop :=
   | _, _ => []
   end.
 
-Definition ids_of (s : Z) (tr : list tev) : list Z :=
-  isort (fun x => x) (flat_map (fun ev => match ev with Deliver s' id => if s' =? s then [id] else [] | _ => [] end) tr).
-Definition tl_count (s : Z) (tr : list tev) : Z :=
-  Z.of_nat (length (filter (fun ev => match ev with TooLong s' => s' =? s | _ => false end) tr)).
+(* the projection of the trace on sequence s, IN ORDER (each sequence has one owner goroutine,
+   so this order is deterministic in the implementation): Deliver id -> 0 id;
+   Persist v -> 1 v; TooLong from to -> 2 from to *)
+Definition seq_events (s : Z) (tr : list tev) : list Z :=
+  flat_map (fun ev => match ev with
+                      | Deliver s' id => if s' =? s then [0; id] else []
+                      | Persist s' v => if s' =? s then [1; v] else []
+                      | TooLong s' f t => if s' =? s then [2; f; t] else []
+                      end) tr.
 Definition zlen {A} (l : list A) : Z := Z.of_nat (length l).
 
 Definition observe (c : config) (m : mgr) : list Z :=
   let seqs := map Z.of_nat (seq 0 (Z.to_nat (nseq c))) in
-  flat_map (fun s => let l := ids_of s (mtr m) in zlen l :: l) seqs
-  ++ (let l := ids_of (-1) (mtr m) in zlen l :: l)
-  ++ map (fun s => persisted c s (mtr m)) seqs
-  ++ map (fun s => tl_count s (mtr m)) seqs.
+  flat_map (fun s => let l := seq_events s (mtr m) in zlen l :: l) (seqs ++ [-1]).
 
 Definition run_case (inp : list Z) : option (config * mgr) :=
   match inp with
@@ -68,7 +70,7 @@ Definition run_case (inp : list Z) : option (config * mgr) :=
       let '(log, t3) := parse_log (Z.to_nat nlog) t2 in
       match t3 with
       | nops :: t4 =>
-        let c := {| nseq := n; base := nthz bases; tracked0 := fun s => negb (nthz trk s =? 0); slice_lim := sl; tl_thr := tl; cslice_lim := csl; ctl_thr := ctl |} in
+        let c := std_config n (nthz bases) (fun s => negb (nthz trk s =? 0)) sl tl csl ctl in
         Some (c, mrun c log (parse_ops (Z.to_nat nops) n t4))
       | [] => None
       end
